@@ -1,4 +1,5 @@
 import CalVerif.Lemmas.Range
+import CalVerif.Lemmas.RangeIter
 /-! # C05 — Range stays a consistent rectangle under every sequence of operations
     Property theorems only (helper lemmas live in `Lemmas/Range.lean`). -/
 namespace Range
@@ -580,6 +581,60 @@ theorem usedCells_spec [DecidableEq α] (r : Rng α) :
   unfold usedCells
   rw [List.mem_filter]; simp
 
+/-! ## the iterators are double-ended: consumption from both ends, in any interleaving
+
+    `Cells`, `UsedCells` and `Rows` implement `DoubleEndedIterator`. For ANY sequence of `next` / `next_back`
+    calls (`true` = `next`), the items returned from the front (in call order), the items still in the
+    iterator, and the items returned from the back (in reverse call order) are together exactly the forward
+    enumeration: every cell once, in row-major order, with the coordinates of `cells()`. -/
+
+theorem cells_double_ended (r : Rng α) (pat : List Bool) :
+    fronts (CellIt.consume CellIt.next CellIt.nextBack pat (cellsIter r)).1 ++
+      (CellIt.consume CellIt.next CellIt.nextBack pat (cellsIter r)).2.rest.map
+        (CellIt.consume CellIt.next CellIt.nextBack pat (cellsIter r)).2.yield ++
+      (backs (CellIt.consume CellIt.next CellIt.nextBack pat (cellsIter r)).1).reverse = cells r := by
+  have h := consume_split selAll CellIt.next CellIt.nextBack next_ok nextBack_ok pat (cellsIter r)
+  rw [pending_all, pending_all, cellsIter_items] at h
+  exact h
+
+/-- `ExactSizeIterator::len` of `Cells` after any consumption history: what is left is what was not yielded -/
+theorem cells_len_exact (r : Rng α) (pat : List Bool) :
+    (CellIt.consume CellIt.next CellIt.nextBack pat (cellsIter r)).2.len +
+      (fronts (CellIt.consume CellIt.next CellIt.nextBack pat (cellsIter r)).1).length +
+      (backs (CellIt.consume CellIt.next CellIt.nextBack pat (cellsIter r)).1).length = (cells r).length := by
+  have h := congrArg List.length (cells_double_ended r pat)
+  simp only [List.length_append, List.length_map, List.length_reverse] at h
+  unfold CellIt.len
+  omega
+
+theorem used_cells_double_ended [DecidableEq α] (r : Rng α) (pat : List Bool) :
+    fronts (CellIt.consume CellIt.nextUsed CellIt.nextBackUsed pat (cellsIter r)).1 ++
+      ((CellIt.consume CellIt.nextUsed CellIt.nextBackUsed pat (cellsIter r)).2.rest.map
+        (CellIt.consume CellIt.nextUsed CellIt.nextBackUsed pat (cellsIter r)).2.yield).filter
+          (fun c => decide (c.2.2 ≠ default)) ++
+      (backs (CellIt.consume CellIt.nextUsed CellIt.nextBackUsed pat (cellsIter r)).1).reverse = usedCells r := by
+  have h := consume_split selUsed CellIt.nextUsed CellIt.nextBackUsed nextUsed_ok nextBackUsed_ok pat (cellsIter r)
+  have e : (fun c : Nat × Nat × α => decide (c.2.2 ≠ default)) = selUsed := by
+    funext c; simp [selUsed]
+  unfold CellIt.pending at h
+  rw [cellsIter_items] at h
+  unfold usedCells
+  rw [e]
+  exact h
+
+/-- once `next` or `next_back` of `UsedCells` has returned `None`, no later call from either end returns a cell -/
+theorem used_cells_fused [DecidableEq α] (it : CellIt α) (d : Bool) (pat : List Bool)
+    (h : (if d then it.nextUsed else it.nextBackUsed).1 = none) :
+    fronts (CellIt.consume CellIt.nextUsed CellIt.nextBackUsed pat (if d then it.nextUsed else it.nextBackUsed).2).1 = [] ∧
+    backs (CellIt.consume CellIt.nextUsed CellIt.nextBackUsed pat (if d then it.nextUsed else it.nextBackUsed).2).1 = [] := by
+  cases d
+  · exact consume_done selUsed _ _ nextUsed_ok nextBackUsed_ok _ (nextBackUsed_ok.done it (by simpa using h)) pat
+  · exact consume_done selUsed _ _ nextUsed_ok nextBackUsed_ok _ (nextUsed_ok.done it (by simpa using h)) pat
+
+theorem rows_double_ended (r : Rng α) (pat : List Bool) :
+    fronts (rowsConsume pat (rows r)).1 ++ (rowsConsume pat (rows r)).2 ++
+      (backs (rowsConsume pat (rows r)).1).reverse = rows r := rowsConsume_split pat (rows r)
+
 /-! ## the property as stated: every history -/
 
 /-- the headline: after **any** history that returns, the range is a full rectangle — `height × width` cells,
@@ -661,5 +716,14 @@ example : getValue (⟨3, 4, 4, 6, [1, 0, 3, 4, 5, 0]⟩ : Rng Nat) 4 5 = some 5
     get (⟨3, 4, 4, 6, [1, 0, 3, 4, 5, 0]⟩ : Rng Nat) 1 1 = some 5 ∧
     index (⟨3, 4, 4, 6, [1, 0, 3, 4, 5, 0]⟩ : Rng Nat) 1 1 = .ok 5 ∧
     getValue (⟨3, 4, 4, 6, [1, 0, 3, 4, 5, 0]⟩ : Rng Nat) 5 5 = none := ⟨rfl, rfl, rfl, rfl⟩
+
+/-- double-ended consumption on a concrete range: front, back, back, front, then both ends are empty -/
+example : (CellIt.consume CellIt.next CellIt.nextBack [true, false, false, true, true, false]
+      (cellsIter (⟨3, 4, 4, 5, [1, 2, 3, 4]⟩ : Rng Nat))).1 =
+    [(true, some (0, 0, 1)), (false, some (1, 1, 4)), (false, some (1, 0, 3)), (true, some (0, 1, 2)),
+     (true, none), (false, none)] := rfl
+example : (CellIt.consume CellIt.nextUsed CellIt.nextBackUsed [false, true, true, false]
+      (cellsIter (⟨3, 4, 4, 6, [1, 0, 3, 4, 5, 0]⟩ : Rng Nat))).1 =
+    [(false, some (1, 1, 5)), (true, some (0, 0, 1)), (true, some (0, 2, 3)), (false, some (1, 0, 4))] := by decide
 
 end Range
